@@ -1,5 +1,5 @@
-"""Revert / mutation sanity for the four canonicalize_url fixes (FX-C01-USERBRACKETS,
-FX-C01-IPBRACKETS, FX-C02-EMPTYAUTH, FX-C02-TRAILINGWS): starting from a copy of ural with
+"""Revert / mutation sanity for the four canonicalize_url fixes (FX-C01-ca9f3e6,
+FX-C01-feb1ed1, FX-C02-f918741, FX-C02-16f182c): starting from a copy of ural with
 the four patches of notes/fixes/ applied, each fix is reverted (R*) or weakened (M*) on its
 own; the 96 tests must still pass and the named checks must report a VIOLATION with a
 failing input of the repaired class.  Usage (the patched copy is never edited):
